@@ -22,7 +22,9 @@ rm -f tarpc/tests/seeded_demo_$n.rs
 unset CARGO_TARGET_DIR
 cd /verif
 for c in "$@"; do
-  find out/$c -name 'replay-*.json' -delete 2>/dev/null
+  export VERIF_OUT=/verif/out/seedruns/$name
+  mkdir -p $VERIF_OUT
+  find $VERIF_OUT/$c -name 'replay-*.json' -delete 2>/dev/null
   rm -f $out/replay-*_$c.json
   VERIF_REPO=$wt timeout 3000 ./check $c quick > $out/check_$c.txt 2>&1
   echo "exit=$?" >> $out/check_$c.txt
